@@ -20,11 +20,25 @@ var c13Permanent = map[string]bool{"AA": true, "GR": true}
 // c13Rotation rebuilds the rotation around one shipped parameter file: pre-crop, optionally one annual crop, then the target
 // crop (permanent crops: 2-4 consecutive cuts, which exercises the regrowth branch of the readers), then annual crops
 func c13Rotation(sc *Scenario, r *Rng, code, variety string, annualFirst float64) {
+	n := 0
+	if r.Bool(annualFirst) {
+		n = 1
+	}
+	c13RotationEx(sc, r, code, variety, n, nil)
+}
+
+// c13RotationEx: nBefore annual crops are grown before the target crop; prefer (optional) filters the crops drawn for them
+// (applied to the first attempts of every draw, so it steers without excluding).
+func c13RotationEx(sc *Scenario, r *Rng, code, variety string, nBefore int, prefer func(ci *CropInfo) bool) {
 	pre := sc.Rotation[0]
 	sc.Rotation = []RotEntry{pre}
 	cur := sc.Start
+	before := true
 	addAnnual := func() {
 		ci := &cropTable[r.Intn(len(cropTable))]
+		for try := 0; before && prefer != nil && try < 6 && !prefer(ci); try++ {
+			ci = &cropTable[r.Intn(len(cropTable))]
+		}
 		sow := nextDOY(cur.AddDays(r.Range(4, 30)), r.Range(ci.SowLo, ci.SowHi))
 		var harv Date
 		if ci.Winter {
@@ -35,9 +49,10 @@ func c13Rotation(sc *Scenario, r *Rng, code, variety string, annualFirst float64
 		sc.Rotation = append(sc.Rotation, RotEntry{Crop: ci.Code, Sow: sow, Harvest: harv, Rex: pickI(r, []int{0, 100, 50})})
 		cur = harv
 	}
-	if r.Bool(annualFirst) {
+	for k := 0; k < nBefore; k++ {
 		addAnnual()
 	}
+	before = false
 	if c13Permanent[code] {
 		sow := nextDOY(cur.AddDays(r.Range(4, 30)), r.Range(70, 110))
 		cuts := r.Range(2, 4)
